@@ -88,6 +88,7 @@ Fixpoint partition_dependent (fuel : nat) (steps : list step) : bool :=
   | S fuel' =>
       existsb (fun st => match st with
                          | SMapBatches _ (BEach _) | SMapValuesBatches _ (BEach _) => false
+                         | SMapBatches _ BDup => false      (* = flat_map: element-wise *)
                          | SMapBatches _ _ | SMapValuesBatches _ _ => true
                          | SJoin _ rs _ => partition_dependent fuel' rs
                          | _ => false
